@@ -219,7 +219,37 @@ class Machine(object):
                 fam = (F.MD_HASHES + F.SHA3_HASHES)[salt % 13]
             cfg = F.gen_hash_cfg(Rng(seed), fam)
             cfg["uad"] = True
-            h = F.make_hash(cfg)
+            if kind == "xof" and salt & 4:
+                # clone taken in the middle of squeezing: both continue the same output stream independently
+                h = F.make_hash(cfg)
+                h.update(msg)
+                n1 = 1 + salt * 3
+                first = h.read(n1)
+                c = h.copy()
+                a = h.read(200)
+                b = c.read(150)
+                c2 = c.copy()
+                b2 = c.read(60)
+                b3 = c2.read(60)
+                e = F.make_hash(cfg)
+                e.update(snap)
+                stream = e.read(n1 + 210)
+                if (first, a, b, b2, b3) != (stream[:n1], stream[n1:n1 + 200], stream[n1:n1 + 150], stream[n1 + 150:n1 + 210], stream[n1 + 150:n1 + 210]):
+                    raise Mutated("copy() taken while squeezing is not independent of / equal to the original (%s)" % fam)
+                return dg(first, a)
+            key_buf = None
+            if fam in ("HMAC", "CMAC") :
+                # the caller owns a mutable key buffer: the library must neither change it nor depend on it later
+                from ..families import cipher_key
+                kb = cipher_key({"alg": cfg["alg"], "key": cfg["key"]}) if fam == "CMAC" else F.D(cfg["key"])
+                key_buf = bytearray(kb)
+                ksnap = bytes(key_buf)
+                h = F.make_hash(cfg, key_obj=key_buf)
+                self._same("key buffer (%s)" % fam, ksnap, bytes(key_buf))
+                for i in range(len(key_buf)):
+                    key_buf[i] ^= 0x5A          # the caller re-uses its buffer
+            else:
+                h = F.make_hash(cfg)
             h.update(msg)
             c = h.copy()
             live.append(c)
@@ -401,13 +431,21 @@ class Machine(object):
             from Crypto.Hash import SHA256, SHA512
             pw = bytearray(data(seed, 20))
             ps = bytes(pw)
+            sl = bytearray(data(seed + 1, 8 + salt % 9))
+            ss = bytes(sl)
             if salt % 3 == 0:
-                r = HKDF(bytes(pw), 40 + salt, data(seed + 1, 8), [SHA256, SHA512][salt & 1], num_keys=1 + salt % 3)
+                r = HKDF(pw, 40 + salt, sl, [SHA256, SHA512][salt & 1], num_keys=1 + salt % 3)
+                e = HKDF(ps, 40 + salt, ss, [SHA256, SHA512][salt & 1], num_keys=1 + salt % 3)
             elif salt % 3 == 1:
-                r = PBKDF2(bytes(pw), data(seed + 1, 8), 20 + salt, count=3 + salt % 20, hmac_hash_module=[SHA256, SHA512][salt & 1])
+                r = PBKDF2(bytes(pw), sl, 20 + salt, count=3 + salt % 20, hmac_hash_module=[SHA256, SHA512][salt & 1])
+                e = PBKDF2(ps, ss, 20 + salt, count=3 + salt % 20, hmac_hash_module=[SHA256, SHA512][salt & 1])
             else:
-                r = scrypt(bytes(pw), data(seed + 1, 8), 16 + salt % 30, N=4, r=1 + salt % 2, p=1)
-            self._same("password buffer", ps, bytes(pw))
+                r = scrypt(bytes(pw), bytes(sl), 16 + salt % 30, N=4, r=1 + salt % 2, p=1)
+                e = r
+            self._same("password / master secret buffer", ps, bytes(pw))
+            self._same("salt buffer", ss, bytes(sl))
+            if r != e:
+                raise Mutated("KDF result depends on the buffer type of its inputs")
             return dg(r)
         if kind == "shamir":
             from Crypto.Protocol.SecretSharing import Shamir
